@@ -43,49 +43,74 @@ static void vec_json(const char *key, const vec_t *V)
 }
 
 /* ------------------------------------------------------------------ pending argument corruption (C18) */
-static TLS char g_corrupt[8][32]; static TLS int g_ncorrupt;
+static TLS char g_corrupt[8][32]; static TLS int g_ncorrupt; static TLS long g_corrvar[8];
 static int has_corr(const char *name) { for (int i = 0; i < g_ncorrupt; i++) if (!strcmp(g_corrupt[i], name)) return 1; return 0; }
-typedef struct { SuperMatrix A, B, X, L, U; DNformat Bs, Xs; superlu_options_t opt; long lwork; char eq; real_t r0, c0; int usework; } saved_t;
+/* every named corruption stands for a class of illegal values ("non-positive", "outside the enumeration", "below n"):
+ * the scenario picks the member of the class by a variant number (default 0 = the first member) */
+static long corr_var(const char *name) { for (int i = 0; i < g_ncorrupt; i++) if (!strcmp(g_corrupt[i], name)) return g_corrvar[i]; return 0; }
+static int pick_other(const int *all, int nall, const int *valid, int nvalid, long v)
+{
+    int cand[16], nc = 0;
+    for (int i = 0; i < nall; i++) { int ok = 1; for (int k = 0; k < nvalid; k++) if (all[i] == valid[k]) ok = 0; if (ok) cand[nc++] = all[i]; }
+    return cand[(v < 0 ? -v : v) % nc];
+}
+static real_t nonpos_value(long v)
+{
+    switch ((v < 0 ? -v : v) % 4) { case 0: return (real_t)0; case 1: return (real_t)-1; case 2: return -(real_t)0; default: return -(sizeof(real_t) == 4 ? (real_t)1e-45 : (real_t)4.9406564584124654e-324); }
+}
+typedef struct { SuperMatrix A, B, X, L, U; DNformat Bs, Xs; superlu_options_t opt; long lwork; char eq; real_t r0, c0; int ri, ci; int usework; } saved_t;
 static void corr_matrix(SuperMatrix *M, const char *pfx, int issq)
 {
-    char nm[48];
-    snprintf(nm, sizeof nm, "%s.nonsquare", pfx); if (has_corr(nm)) M->ncol += 1;
-    snprintf(nm, sizeof nm, "%s.negdim", pfx); if (has_corr(nm)) { M->nrow = -1; if (issq) M->ncol = -1; }
-    snprintf(nm, sizeof nm, "%s.stype", pfx); if (has_corr(nm)) M->Stype = SLU_NCP;
-    snprintf(nm, sizeof nm, "%s.dtype", pfx); if (has_corr(nm)) M->Dtype = (DTYPE == SLU_D ? SLU_S : SLU_D);
-    snprintf(nm, sizeof nm, "%s.mtype", pfx); if (has_corr(nm)) M->Mtype = SLU_SYL;
+    char nm[48]; long v;
+    static const int allS[] = {SLU_NC, SLU_NCP, SLU_NR, SLU_SC, SLU_SCP, SLU_SR, SLU_DN, SLU_NR_loc}, allD[] = {SLU_S, SLU_D, SLU_C, SLU_Z},
+                     allM[] = {SLU_GE, SLU_TRLU, SLU_TRUU, SLU_TRL, SLU_TRU, SLU_SYL, SLU_SYU, SLU_HEL, SLU_HEU};
+    snprintf(nm, sizeof nm, "%s.nonsquare", pfx); if (has_corr(nm)) { v = corr_var(nm); if (v % 3 == 1 && M->ncol > 1) M->ncol -= 1; else if (v % 3 == 2) M->nrow += 1; else M->ncol += 1; }
+    snprintf(nm, sizeof nm, "%s.negdim", pfx); if (has_corr(nm)) { v = corr_var(nm) % 3; M->nrow = v == 1 ? -2 : -1; if (issq && v != 2) M->ncol = M->nrow; }
+    snprintf(nm, sizeof nm, "%s.stype", pfx); if (has_corr(nm)) {
+        /* the drivers accept both compressed orientations of A; every other tag is illegal for the argument */
+        int validA[] = {SLU_NC, SLU_NR}, valid1[] = {(int)M->Stype};
+        M->Stype = (Stype_t)(!strcmp(pfx, "A") ? pick_other(allS, 8, validA, 2, corr_var(nm)) : pick_other(allS, 8, valid1, 1, corr_var(nm)));
+    }
+    snprintf(nm, sizeof nm, "%s.dtype", pfx); if (has_corr(nm)) { int valid1[] = {(int)M->Dtype}; M->Dtype = (Dtype_t)pick_other(allD, 4, valid1, 1, corr_var(nm)); }
+    snprintf(nm, sizeof nm, "%s.mtype", pfx); if (has_corr(nm)) { int valid1[] = {(int)M->Mtype}; M->Mtype = (Mtype_t)pick_other(allM, 9, valid1, 1, corr_var(nm)); }
 }
 static void save_args(ctx_t *c, saved_t *sv)
 {
     sv->A = c->A; sv->B = c->B; sv->X = c->X; sv->L = c->L; sv->U = c->U; sv->opt = c->opt; sv->lwork = c->lwork; sv->eq = c->equed[0];
-    sv->usework = c->usework; sv->r0 = c->R ? c->R[0] : 0; sv->c0 = c->C ? c->C[0] : 0;
+    sv->usework = c->usework;
+    /* which entry of the scale factor arrays is made illegal: any of the n */
+    sv->ri = c->n > 0 ? (int)((corr_var("R.nonpos") / 4) % c->n) : 0; sv->ci = c->n > 0 ? (int)((corr_var("C.nonpos") / 4) % c->n) : 0;
+    sv->r0 = c->R ? c->R[sv->ri] : 0; sv->c0 = c->C ? c->C[sv->ci] : 0;
     if (c->haveB) { sv->Bs = *(DNformat *)c->B.Store; sv->Xs = *(DNformat *)c->X.Store; }
 }
 /* corruptions of caller data (part of what must come back untouched) */
-static void apply_data_corruptions(ctx_t *c)
+static void apply_data_corruptions(ctx_t *c, const saved_t *sv)
 {
-    if (has_corr("equed")) c->equed[0] = 'Q';
-    if (has_corr("R.nonpos")) c->R[0] = (real_t)0;
-    if (has_corr("C.nonpos")) c->C[0] = (real_t)-1;
+    static const char badeq[] = {'Q', 'X', ' ', 'r', 0};
+    if (has_corr("equed")) c->equed[0] = badeq[corr_var("equed") % 5];
+    if (has_corr("R.nonpos")) c->R[sv->ri] = nonpos_value(corr_var("R.nonpos"));
+    if (has_corr("C.nonpos")) c->C[sv->ci] = nonpos_value(corr_var("C.nonpos") + 1);      /* (variant 0: -1, as before) */
 }
 /* corruptions of argument headers / option values (restored by the harness after the call) */
+static int bad_lda(const ctx_t *c, long v) { switch (v % 4) { case 0: return c->n - 1; case 1: return 0; case 2: return -3; default: return c->n > 2 ? 1 : c->n - 1; } }
+static int bad_enum(int nvalid, long v) { switch (v % 4) { case 0: return nvalid + 3; case 1: return -1; case 2: return nvalid; default: return 1000 + (int)v; } }
 static void apply_header_corruptions(ctx_t *c)
 {
     if (!g_ncorrupt) return;
     corr_matrix(&c->A, "A", 1);
     if (c->haveB) {
         corr_matrix(&c->B, "B", 0); corr_matrix(&c->X, "X", 0);
-        if (has_corr("B.ncolneg")) c->B.ncol = -1;
-        if (has_corr("X.ncolneg")) c->X.ncol = -1;
-        if (has_corr("B.lda")) ((DNformat *)c->B.Store)->lda = c->n - 1;
-        if (has_corr("X.lda")) ((DNformat *)c->X.Store)->lda = c->n - 1;
-        if (has_corr("X.ncolmismatch")) c->X.ncol = c->B.ncol + 1;
+        if (has_corr("B.ncolneg")) c->B.ncol = -1 - (int)(corr_var("B.ncolneg") % 3);
+        if (has_corr("X.ncolneg")) c->X.ncol = -1 - (int)(corr_var("X.ncolneg") % 3);
+        if (has_corr("B.lda")) ((DNformat *)c->B.Store)->lda = bad_lda(c, corr_var("B.lda"));
+        if (has_corr("X.lda")) ((DNformat *)c->X.Store)->lda = bad_lda(c, corr_var("X.lda"));
+        if (has_corr("X.ncolmismatch")) c->X.ncol = (corr_var("X.ncolmismatch") % 2 && c->B.ncol > 1) ? c->B.ncol - 1 : c->B.ncol + 1;
     }
     if (c->haveL) { corr_matrix(&c->L, "L", 1); corr_matrix(&c->U, "U", 1); }
-    if (has_corr("opt.Fact")) c->opt.Fact = (fact_t)7;
-    if (has_corr("opt.Trans")) c->opt.Trans = (trans_t)5;
-    if (has_corr("opt.Equil")) c->opt.Equil = (yes_no_t)3;
-    if (has_corr("lwork")) { c->lwork = -2; c->usework = 1; }
+    if (has_corr("opt.Fact")) c->opt.Fact = (fact_t)bad_enum(4, corr_var("opt.Fact"));
+    if (has_corr("opt.Trans")) c->opt.Trans = (trans_t)bad_enum(3, corr_var("opt.Trans"));
+    if (has_corr("opt.Equil")) c->opt.Equil = (yes_no_t)bad_enum(2, corr_var("opt.Equil"));
+    if (has_corr("lwork")) { c->lwork = -2 - 49 * (corr_var("lwork") % 3); c->usework = 1; }
 }
 static void undo_header_corruptions(ctx_t *c, const saved_t *sv)
 {
@@ -95,8 +120,8 @@ static void undo_header_corruptions(ctx_t *c, const saved_t *sv)
 static void undo_data_corruptions(ctx_t *c, const saved_t *sv)
 {
     if (has_corr("equed")) c->equed[0] = sv->eq;
-    if (has_corr("R.nonpos")) c->R[0] = sv->r0;
-    if (has_corr("C.nonpos")) c->C[0] = sv->c0;
+    if (has_corr("R.nonpos")) c->R[sv->ri] = sv->r0;
+    if (has_corr("C.nonpos")) c->C[sv->ci] = sv->c0;
 }
 static void corr_json(void)
 {
@@ -128,7 +153,7 @@ static void call_screen(const char *fn, char *args)
     ctx_t *c = cx; saved_t sv; ensure_stat(c);
     long live0; { slu_v_ledger_t l; slu_v_get(&l); live0 = l.live_blocks; }
     save_args(c, &sv);
-    apply_data_corruptions(c);
+    apply_data_corruptions(c, &sv);
     uint64_t d0 = caller_digest(c);       /* every byte of caller data as passed to the routine */
     apply_header_corruptions(c);
     long long info = -9999; int iinfo = -9999; int_t tinfo = -9999;
@@ -137,13 +162,13 @@ static void call_screen(const char *fn, char *args)
     if (!strcmp(fn, "gssv")) { FN(gssv)(&c->opt, &c->A, c->perm_c, c->perm_r, &c->L, &c->U, &c->B, &c->stat, &tinfo); info = tinfo; }
     else if (!strcmp(fn, "gssvx")) { FN(gssvx)(&c->opt, &c->A, c->perm_c, c->perm_r, c->etree, c->equed, c->R, c->C, &c->L, &c->U, work, lwork, &c->B, &c->X, &rpg, &rcond, c->ferr, c->berr, &c->Glu, &mu, &c->stat, &tinfo); info = tinfo; }
     else if (!strcmp(fn, "gsisx")) { FN(gsisx)(&c->opt, &c->A, c->perm_c, c->perm_r, c->etree, c->equed, c->R, c->C, &c->L, &c->U, work, lwork, &c->B, &c->X, &rpg, &rcond, &c->Glu, &mu, &c->stat, &tinfo); info = tinfo; }
-    else if (!strcmp(fn, "gstrs")) { int tr = has_corr("trans") ? 7 : atoi(args); FN(gstrs)((trans_t)tr, &c->L, &c->U, c->perm_c, c->perm_r, &c->B, &c->stat, &iinfo); info = iinfo; }
-    else if (!strcmp(fn, "gsrfs")) { int tr = has_corr("trans") ? 7 : atoi(args); FN(gsrfs)((trans_t)tr, &c->A, &c->L, &c->U, c->perm_c, c->perm_r, c->equed, c->R, c->C, &c->B, &c->X, c->ferr, c->berr, &c->stat, &iinfo); info = iinfo; }
-    else if (!strcmp(fn, "gscon")) { if (has_corr("norm")) norm[0] = 'X'; else if (args && strchr(args, 'I')) norm[0] = 'I'; FN(gscon)(norm, &c->L, &c->U, (real_t)1.0, &rcond, &c->stat, &iinfo); info = iinfo; }
+    else if (!strcmp(fn, "gstrs")) { int tr = has_corr("trans") ? bad_enum(3, corr_var("trans")) : atoi(args); FN(gstrs)((trans_t)tr, &c->L, &c->U, c->perm_c, c->perm_r, &c->B, &c->stat, &iinfo); info = iinfo; }
+    else if (!strcmp(fn, "gsrfs")) { int tr = has_corr("trans") ? bad_enum(3, corr_var("trans")) : atoi(args); FN(gsrfs)((trans_t)tr, &c->A, &c->L, &c->U, c->perm_c, c->perm_r, c->equed, c->R, c->C, &c->B, &c->X, c->ferr, c->berr, &c->stat, &iinfo); info = iinfo; }
+    else if (!strcmp(fn, "gscon")) { if (has_corr("norm")) norm[0] = "XE2Z"[corr_var("norm") % 4]; else if (args && strchr(args, 'I')) norm[0] = 'I'; FN(gscon)(norm, &c->L, &c->U, (real_t)1.0, &rcond, &c->stat, &iinfo); info = iinfo; }
     else if (!strcmp(fn, "gsequ")) { real_t rc, cc, am; FN(gsequ)(&c->A, c->R, c->C, &rc, &cc, &am, &iinfo); info = iinfo; }
     else if (!strcmp(fn, "trsv")) {
         char u[2] = "L", t[2] = "N", d[2] = "U";
-        if (has_corr("uplo")) u[0] = 'X'; if (has_corr("trans")) t[0] = 'X'; if (has_corr("diag")) d[0] = 'X';
+        if (has_corr("uplo")) u[0] = "XZ1 "[corr_var("uplo") % 4]; if (has_corr("trans")) t[0] = "XZ1 "[corr_var("trans") % 4]; if (has_corr("diag")) d[0] = "XZ1 "[corr_var("diag") % 4];
         SPFN(trsv)(u, t, d, &c->L, &c->U, VX.v, &c->stat, &iinfo); info = iinfo;
     }
     undo_header_corruptions(c, &sv);
@@ -152,6 +177,7 @@ static void call_screen(const char *fn, char *args)
     slu_v_ledger_t l; slu_v_get(&l);
     fprintf(OUT, "{\"e\":\"Ret\",\"id\":\"%s\",\"fn\":\"screen\",\"routine\":\"%s\",\"ty\":\"" TYCH "\",\"n\":%d,\"info\":%lld,\"unchanged\":%d,\"live_delta\":%ld,\"bad_frees\":%ld,\"fact\":%d",
             g_id, fn, c->n, info, d0 == d1, l.live_blocks - live0, l.bad_frees, (int)c->opt.Fact);
+    fprintf(OUT, ",\"eq\":\"%c\"", (sv.eq == 'R' || sv.eq == 'C' || sv.eq == 'B') ? sv.eq : 'N');
     corr_json();
     ENDLINE();
     g_ncorrupt = 0;
@@ -486,7 +512,7 @@ static int extra_call(const char *fn, char *args)
 }
 static int extra_cmd(const char *cmd, char *rest)
 {
-    if (!strcmp(cmd, "corrupt")) { char nm[32]; if (sscanf(rest, "%31s", nm) == 1 && g_ncorrupt < 8) strcpy(g_corrupt[g_ncorrupt++], nm); return 1; }
+    if (!strcmp(cmd, "corrupt")) { char nm[32]; long var = 0; if (sscanf(rest, "%31s %ld", nm, &var) >= 1 && g_ncorrupt < 8) { g_corrvar[g_ncorrupt] = var < 0 ? -var : var; strcpy(g_corrupt[g_ncorrupt++], nm); } return 1; }
     if (!strcmp(cmd, "vecx")) { vec_set(&VX, rest); return 1; }
     if (!strcmp(cmd, "vecy")) { vec_set(&VY, rest); return 1; }
     if (!strcmp(cmd, "vecc")) { vec_set(&VC, rest); return 1; }
